@@ -675,14 +675,15 @@ def inline_new_helpers(modname, tree, inv):
     return inlined
 
 
-def drop_unreferenced_new_helpers(modname, tree, inv):
+def drop_unreferenced_new_helpers(modname, tree, inv, external_refs=()):
     """A new private helper whose every call site was inlined is removed from the analysed tree: the program then looks
-    exactly as before the extraction (rules that enumerate functions do not see a function the reference lacks)."""
+    exactly as before the extraction (rules that enumerate functions do not see a function the reference lacks).
+    external_refs: names still referenced from other modules (a subclass elsewhere calls the helper)."""
     dropped = []
     for prefix, node, funcs in _scopes(modname, tree):
         for f in funcs:
             q = prefix + "." + f.name
-            if q in inv or not _is_private(f.name):
+            if q in inv or not _is_private(f.name) or f.name in external_refs:
                 continue
             refs = 0
             for x in ast.walk(tree):
@@ -706,7 +707,163 @@ def drop_unreferenced_new_helpers(modname, tree, inv):
     return dropped
 
 
-def apply(modname, tree):
+class _YieldToAdd(ast.NodeTransformer):
+    def __init__(self, target, method):
+        self.target = target
+        self.method = method
+
+    def visit_FunctionDef(self, n):
+        return n
+
+    visit_Lambda = visit_FunctionDef
+
+    def visit_Expr(self, n):
+        if isinstance(n.value, ast.Yield) and n.value.value is not None:
+            call = ast.Call(func=ast.Attribute(value=ast.Name(id=self.target, ctx=ast.Load()), attr=self.method, ctx=ast.Load()),
+                            args=[n.value.value], keywords=[])
+            return ast.copy_location(ast.Expr(value=call), n)
+        return self.generic_visit(n)
+
+
+def inline_generator_collectors(modname, tree, inv):
+    """`T = set(_h(args))` / `list(_h(args))` where _h is a new private generator function whose yields are all plain statements
+    (`yield E`) and which has no return: the collection is built in place -- `T = set()` followed by the body of _h with every
+    `yield E` read as `T.add(E)` (list: append).  That is what the code was before the generator was split off."""
+    done = []
+    for prefix, node, funcs in _scopes(modname, tree):
+        is_class = isinstance(node, ast.ClassDef)
+        gens = []
+        for f in funcs:
+            q = prefix + "." + f.name
+            if q in inv or not _is_private(f.name) or f.decorator_list and is_class and any(
+                    (getattr(d, "id", None) or getattr(d, "attr", "")) in ("property", "classmethod") for d in f.decorator_list):
+                continue
+            ys = [x for x in ast.walk(f) if isinstance(x, (ast.Yield, ast.YieldFrom))]
+            if not ys or any(isinstance(x, ast.YieldFrom) for x in ys):
+                continue
+            stmt_yields = [st.value for st in ast.walk(f) if isinstance(st, ast.Expr) and isinstance(st.value, ast.Yield)]
+            if len(stmt_yields) != len(ys) or any(y.value is None for y in ys):
+                continue
+            if any(isinstance(x, ast.Return) for x in ast.walk(f)):
+                continue
+            if f.args.vararg or f.args.kwarg or f.args.kwonlyargs:
+                continue
+            decos = [d.id if isinstance(d, ast.Name) else getattr(d, "attr", "") for d in f.decorator_list]
+            kind = "func" if not is_class else ("static" if "staticmethod" in decos else "method")
+            gens.append((f, kind))
+        if not gens:
+            continue
+        callers = []
+        for p2, n2, f2 in _scopes(modname, tree):
+            cname = n2.name if isinstance(n2, ast.ClassDef) else None
+            callers.extend((f, cname) for f in f2)
+        for caller, cname in callers:
+            counter = [0]
+
+            def rewrite(stmts):
+                out = []
+                for st in stmts:
+                    for field in ("body", "orelse", "finalbody"):
+                        v = getattr(st, field, None)
+                        if isinstance(v, list) and v and isinstance(v[0], ast.stmt) and not isinstance(st, (ast.FunctionDef, ast.AsyncFunctionDef, ast.ClassDef)):
+                            setattr(st, field, rewrite(v))
+                    if isinstance(st, ast.Try):
+                        for h_ in st.handlers:
+                            h_.body = rewrite(h_.body)
+                    hit = None
+                    if isinstance(st, ast.Assign) and len(st.targets) == 1 and isinstance(st.targets[0], ast.Name) \
+                            and isinstance(st.value, ast.Call) and isinstance(st.value.func, ast.Name) and st.value.func.id in ("set", "list") \
+                            and len(st.value.args) == 1 and not st.value.keywords and isinstance(st.value.args[0], ast.Call):
+                        inner = st.value.args[0]
+                        for f, kind in gens:
+                            if f is caller:
+                                continue
+                            h = Helper(f, kind, node.name if is_class else None)
+                            if _is_call_to(inner, h, cname):
+                                hit = (h, inner)
+                                break
+                    if hit is None:
+                        out.append(st)
+                        continue
+                    h, inner = hit
+                    tname = st.targets[0].id
+                    method = "add" if st.value.func.id == "set" else "append"
+                    body = h.fn.body
+                    if body and isinstance(body[0], ast.Expr) and isinstance(body[0].value, ast.Constant) and isinstance(body[0].value.value, str):
+                        body = body[1:]
+                    h.body = [_YieldToAdd(tname, method).visit(copy.deepcopy(x)) for x in body]
+                    counter[0] += 1
+                    inst = _instantiate(h, inner, caller, 900 + counter[0], keep=(tname,))
+                    if inst is None:
+                        out.append(st)
+                        continue
+                    prelude, ibody = inst
+                    init = ast.copy_location(ast.Assign(targets=[ast.Name(id=tname, ctx=ast.Store())],
+                                                        value=ast.Call(func=ast.Name(id=st.value.func.id, ctx=ast.Load()), args=[], keywords=[])), st)
+                    for s_ in [init] + prelude + ibody:
+                        ast.fix_missing_locations(s_)
+                    out.extend([init] + prelude + ibody)
+                    done.append("%s.%s" % (prefix, caller.name))
+                return out
+            caller.body = rewrite(caller.body)
+    return done
+
+
+def specialise_overridden_helpers(modname, tree, inv):
+    """Template method introduced by a refactoring: a base-class method m now calls a new private hook self._h(...) that the base
+    class and a subclass define differently (the subclass used to have its own m).  The subclass gets its own copy of m, so that
+    the ordinary inlining gives each class the m it had: base.m with base._h inlined, sub.m with sub._h inlined.
+    Only within one module; methods that call super() are not copied."""
+    classes = {}
+    for prefix, node, funcs in _scopes(modname, tree):
+        if isinstance(node, ast.ClassDef):
+            classes.setdefault(node.name, (prefix, node, funcs))
+    made = []
+
+    def base_names(node):
+        out = []
+        for b in node.bases:
+            if isinstance(b, ast.Name):
+                out.append(b.id)
+            elif isinstance(b, ast.Attribute):
+                out.append(b.attr)
+        return out
+
+    def ancestors(name, seen=()):
+        if name not in classes:
+            return []
+        out = []
+        for b in base_names(classes[name][1]):
+            if b in classes and b not in seen:
+                out.append(b)
+                out.extend(ancestors(b, seen + (name,)))
+        return out
+    for cname, (prefix, node, funcs) in list(classes.items()):
+        own = dict((f.name, f) for f in funcs)
+        hooks = [f for f in funcs if (prefix + "." + f.name) not in inv and _is_private(f.name)]
+        if not hooks:
+            continue
+        for anc in ancestors(cname):
+            aprefix, anode, afuncs = classes[anc]
+            adefs = dict((f.name, f) for f in afuncs)
+            for h in hooks:
+                if h.name not in adefs or (aprefix + "." + h.name) in inv:
+                    continue
+                for m in afuncs:
+                    if m.name in own or m.name == h.name or m.name.startswith("__"):
+                        continue
+                    refs = any(isinstance(x, ast.Attribute) and x.attr == h.name and isinstance(x.value, ast.Name) and x.value.id == "self"
+                               for x in ast.walk(m))
+                    if not refs or any(isinstance(x, ast.Name) and x.id == "super" for x in ast.walk(m)):
+                        continue
+                    cp = copy.deepcopy(m)
+                    node.body.append(cp)
+                    own[m.name] = cp
+                    made.append("%s.%s" % (prefix, m.name))
+    return made
+
+
+def apply(modname, tree, drop=True):
     inv = inventory()
     if not inv:
         return tree, {}
@@ -714,10 +871,90 @@ def apply(modname, tree):
     ren = undo_renames(modname, tree, inv)
     if ren:
         info["renamed_back"] = ren
+    spec = specialise_overridden_helpers(modname, tree, inv)
+    if spec:
+        info["specialised"] = spec
+    gen = inline_generator_collectors(modname, tree, inv)
     inl = inline_new_helpers(modname, tree, inv)
+    if gen:
+        inl = list(inl) + gen
     if inl:
         info["inlined_into"] = sorted(set(inl))
-        dropped = drop_unreferenced_new_helpers(modname, tree, inv)
-        if dropped:
-            info["dropped_helpers"] = dropped
+        if drop:
+            dropped = drop_unreferenced_new_helpers(modname, tree, inv)
+            if dropped:
+                info["dropped_helpers"] = dropped
     return tree, info
+
+
+def new_method_helpers(modname, tree):
+    """[(class name, FunctionDef)] of the private methods of this module that the reference tree lacks"""
+    inv = inventory()
+    out = []
+    if not inv:
+        return out
+    for prefix, node, funcs in _scopes(modname, tree):
+        if not isinstance(node, ast.ClassDef):
+            continue
+        for f in funcs:
+            if (prefix + "." + f.name) in inv or not _is_private(f.name):
+                continue
+            decos = [d.id if isinstance(d, ast.Name) else getattr(d, "attr", "") for d in f.decorator_list]
+            if any(d in ("property", "abstractmethod", "staticmethod", "classmethod") for d in decos):
+                continue
+            out.append((node.name, f))
+    return out
+
+
+def inline_across_modules(trees):
+    """trees: {module name: tree}.  A new private method of class K (module A) that a subclass of K in another module calls as
+    self._h(...) is inlined there too (subclass relation by base-class names; a subclass that defines its own _h is skipped).
+    -> {module name: [caller qualified names]}"""
+    helpers = []
+    for mn, tree in trees.items():
+        for cname, f in new_method_helpers(mn, tree):
+            helpers.append((mn, cname, f))
+    if not helpers:
+        return {}
+    bases = {}
+    classes = []
+    for mn, tree in trees.items():
+        for prefix, node, funcs in _scopes(mn, tree):
+            if isinstance(node, ast.ClassDef):
+                bs = set()
+                for b in node.bases:
+                    if isinstance(b, ast.Name):
+                        bs.add(b.id)
+                    elif isinstance(b, ast.Attribute):
+                        bs.add(b.attr)
+                bases.setdefault(node.name, set()).update(bs)
+                classes.append((mn, prefix, node, funcs))
+
+    def derives(c, k, seen=()):
+        if c == k:
+            return True
+        return any(derives(b, k, seen + (c,)) for b in bases.get(c, ()) if b not in seen)
+    done = {}
+    for hmod, hcls, hf in helpers:
+        for mn, prefix, node, funcs in classes:
+            if mn == hmod or node.name == hcls or not derives(node.name, hcls):
+                continue
+            if any(f.name == hf.name for f in funcs):
+                continue
+            h = Helper(hf, "method", node.name)
+            if not h.ok:
+                continue
+            for f in funcs:
+                state = {"n": 0, "changed": False}
+                _ALIASES.clear()
+                f.body = _inline_block(f.body, [h], node.name, f, state)
+                if state["changed"]:
+                    done.setdefault(mn, []).append("%s.%s" % (prefix, f.name))
+    return done
+
+
+def finish(modname, tree, external_refs):
+    inv = inventory()
+    if not inv:
+        return []
+    return drop_unreferenced_new_helpers(modname, tree, inv, external_refs)
